@@ -1,7 +1,7 @@
 """Shared by C04 and C06: case generator, engine runner (cached by content), and the DIRECT ORACLES that restate
 both properties on the implementation's output alone (script + observed results/frames; no Coq model involved).
 
-Script line:  [E<server|tower>] K<cap> C<nconns> step step ...
+Script line:  [E<server|tower|towermw>] K<cap> C<nconns> step step ...
   E = the entry point the REAL server is assembled through (harness/src/bin/subhist.rs): `server` (default, no token)
       = Server::builder().build(addr) + Server::start(module); `tower` = ONE TowerServiceBuilder
       (ServerBuilder::to_service_builder()) per history, cloned for every accepted TCP connection and served from the
@@ -21,7 +21,7 @@ import vlib
 ID_BASE = 1000
 KNOWN_KEY = "sink-clone-dropped"
 BELOW_OWN_CAP_KEY = "subscribe-refused-below-own-cap"
-ENTRIES = ("server", "tower")
+ENTRIES = ("server", "tower", "towermw")   # towermw: rpc middleware set per connection on a clone of the shared builder
 NEVER_ACTIVE_KEY = "unsubscribe-true-for-never-active"
 
 
@@ -481,7 +481,7 @@ def own_cap_family():
 
 def entry_cases(ctx):
     """The entry-point dimension: [(line, tag)].  The two-connection families -- the targeted own-cap family, random walks
-    over 2..3 connections, the exhaustive short scripts with 2 connections -- and the fixed corpus, each script under BOTH
+    over 2..3 connections, the exhaustive short scripts with 2 connections -- and the fixed corpus, each script under ALL THREE
     entry points (`server` lines carry no token, see line_of).  Own generator so that the case set of gen_cases' other
     families does not move."""
     rng = random.Random(ctx.seed * 104729 + 6006)
